@@ -26,6 +26,7 @@
 #undef malloc
 #undef free
 #undef realloc
+#include "vf_frame.h"
 #define INJECTED (vf_fail_at != 0 && vf_nreq >= vf_fail_at)
 
 static vf_tree T; static cJSON snap[TNN]; static long copy_blocks;
@@ -69,7 +70,9 @@ int main(VF_MAIN_ARGS)
     live0 = vf_live;
     vf_fail_at = IN.fail_at ? vf_nreq + IN.fail_at : 0;
 
+    VF_FRAME_BEGIN();
     copy = cJSON_Duplicate(root, IN.recurse & 1);
+    VF_FRAME_END(0);
 
     for (i = 0; i < TNN; i++) if (T.node[i]) VF_AP(11, memcmp(&snap[i], T.node[i], sizeof(cJSON)) == 0, "C11 the source is never modified");
     if (copy) {
